@@ -233,6 +233,7 @@ type webSocket struct {
 	closeC             chan websocket.CloseError // used to gracefully close a websocket connection.
 	forceCloseC        chan error                // used by the readPump to notify a forcefully closed connection to the writePump.
 	doneC              chan struct{}             // closed when the cleanup starts: releases writers blocked on a full outQueue.
+	announcedC         chan struct{}             // server side only: closed once the new-client handler has returned; the disconnected handler waits for it.
 	tlsConnectionState *tls.ConnectionState
 	remoteAddr         net.Addr // address of the peer, kept after the connection is closed
 	cfg                WebSocketConfig
